@@ -1,5 +1,6 @@
 """Callee-side verification of one function against its contract, and obligation discharge."""
 import time
+import re
 import os
 import subprocess
 import tempfile
@@ -120,6 +121,16 @@ def verify_function(prog, spec, con, mode='seq', options=None):
                 for g, t in after_g.items():
                     if g.startswith('view$'):
                         post_s.ghost[g] = t
+        for c in con.of('ghostsync'):
+            # `ghostsync view(m) := expr`: the abstract contents of the map object are, by definition, the contents of
+            # its current table at this (quiescent) point
+            mm = re.match(r'^view\((.*?)\)\s*:=\s*(.*)$', c.extra['arg'])
+            mobj = spec.eval(ex, specparse.parse_expr(mm.group(1)), env2, post_s, old_s)
+            val = spec.eval(ex, specparse.parse_expr(mm.group(2)), env2, post_s, old_s)
+            kt, vt = spec.map_kv(ex, mobj.t)
+            ks, vs = ex.ts.sort(kt), ex.ts.sort(vt)
+            arr = spec.view_get(ex, post_s, ks, vs)
+            post_s.ghost[spec.view_name(ks, vs)] = z3.Store(arr, ex.term(mobj), val.x)
         for c in con.clauses:
             if c.kind == 'let':
                 env2[c.extra['var']] = ('val', spec.eval(ex, c.expr, env2, post_s, old_s))
@@ -211,6 +222,34 @@ def discharge(obls, timeout_ms=10000, external=True):
             r.solver = 'trivial'
             results.append(r)
             continue
+        # conjuncts of the goal that literally are (conjuncts of) hypotheses need no solver
+        goal = o.goal
+        try:
+            known = set()
+            stack = list(o.assumptions)
+            while stack:
+                a_ = stack.pop()
+                known.add(a_.get_id())
+                if z3.is_and(a_):
+                    stack.extend(a_.children())
+            def prune(g):
+                if g.get_id() in known:
+                    return z3.BoolVal(True)
+                if z3.is_and(g):
+                    cs = [prune(c) for c in g.children()]
+                    cs = [c for c in cs if not z3.is_true(c)]
+                    return z3.And(*cs) if cs else z3.BoolVal(True)
+                return g
+            goal = prune(goal)
+        except z3.Z3Exception:
+            goal = o.goal
+        if z3.is_true(goal):
+            r.status = 'unsat'
+            r.solver = 'syntactic'
+            results.append(r)
+            continue
+        if goal is not o.goal:
+            o = Obligation(o.name, o.tags, o.assumptions, goal, o.where, o.kind, o.fn, o.extra)
         quant = has_quantifier(list(o.assumptions) + [o.goal])
         r.solver = 'z3-5.1.0'
         done = False
@@ -223,6 +262,22 @@ def discharge(obls, timeout_ms=10000, external=True):
                 r.status = 'unsat'
                 r.solver = 'z3-5.1.0+qf'
                 done = True
+        if quant and not done:
+            # stage E: E-matching only (triggers chosen by the spec evaluator, model-based instantiation off): fast and
+            # predictable when the needed instances are reachable through the triggers
+            se = z3.Solver()
+            se.set('timeout', int(min(timeout_ms, 6000)))
+            se.set('auto_config', False)
+            se.set('mbqi', False)
+            se.add(*o.assumptions)
+            se.add(z3.Not(o.goal))
+            try:
+                if se.check() == z3.unsat:
+                    r.status = 'unsat'
+                    r.solver = 'z3-5.1.0+ematch'
+                    done = True
+            except z3.Z3Exception:
+                pass
         if not done:
             first_to = timeout_ms if not quant else min(timeout_ms, 1500)
             s, res, reason = solve(o.assumptions, z3.Not(o.goal), first_to)
